@@ -45,11 +45,15 @@ LEVEL_TEXT = ("The real request path (body reader under Content-Length and chunk
               "inside the bound each request is answered 2xx or 4xx with exactly one start_response, no traceback and no "
               "escaping exception, and every delivered field equals the data of a delimiter-terminated part of the sent "
               "text as found by the harness's own scanner. Bounded: skeletons, sites and handler kinds are enumerated.")
-LEVEL_NOTE = ("Trusted: z3, CrossHair's bytes/str/regex/codec models (+vf/chmodels), CPython for concrete steps, the "
-              "reference scanner, the stubs PyBytesIO, SymStream, PieceStream, ListForms, py_unquote, PyJson (each compared "
-              "with the real object on concrete inputs at import). The symbolic bytes reach the streaming parser in a "
-              "short read of their own (window of the stated context); other read divisions are enumerated, not "
-              "symbolic. JSON model queries cover bytes 0x01-0x7f, the real json.loads is used with one free byte.")
+LEVEL_NOTE = ("Trusted: z3, CrossHair's bytes/str/regex/codec models (+vf/chmodels, + the correction of its regex model "
+              "for optional groups in vf/stubs_c12, compared with CPython's re under the tracer at every run), CPython "
+              "for concrete steps, the reference scanner, the stubs PyBytesIO, SymStream, PieceStream, ListForms, "
+              "py_unquote, PyJson (each compared with the real object on concrete inputs at import). Every symbolic path "
+              "that held is re-run on the plain interpreter with the inputs of its solver model and must show the same "
+              "status, response body and delivered values (a difference is reported as a machinery error). The symbolic "
+              "bytes reach the streaming parser in a short read of their own (window of the stated context); other read "
+              "divisions are enumerated, not symbolic. JSON model queries cover bytes 0x01-0x7f, the real json.loads is "
+              "used with one free byte and on concrete texts.")
 FUNCTIONS = [
     "ombott.ombott:Ombott.wsgi",
     "ombott.ombott:Ombott._handle",
@@ -82,7 +86,9 @@ STUBS = [
     "ListForms: FormsDict as an association list compared with == (hashing would realise symbolic names)",
     "py_unquote: urllib.parse.unquote inside request_pkg.helpers written out in Python (percent + UTF-8/replace decoder)",
     "PyJson: json.loads inside body_mixin as a recursive-descent reader for ASCII texts (json/model queries only; "
-    "json/real queries run the real C scanner)",
+    "json/real and json/text queries run the real C scanner)",
+    "fix_relib_optional_group: correction of CrossHair's regex model (an optional group was matched without its "
+    "continuation, which lost the `name` option of every header line containing a symbolic character)",
 ]
 ASSUMPTIONS = [
     "a WSGI server may return fewer bytes than asked from wsgi.input.read (PEP 3333): the windowing of the symbolic "
@@ -102,7 +108,7 @@ BUDGET_S = {"quick": 270, "thorough": 1180}
 STATS = {}
 
 stubs.install_body_io()
-stubs_c12.install(json_model=False)
+stubs_c12.install()
 stubs_c12.fix_relib_optional_group()
 STATS["stub_comparisons_with_the_real_objects"] = stubs_c12.validate()
 stubs_c12.warm_symbolic_tables()
@@ -123,16 +129,6 @@ class Sent:
         self.a = len(pre)
         self.b = self.a + len(hole)
         self.n = self.b + len(post)
-
-    def first(self, n):
-        """the first n bytes (n a plain int)"""
-        if n >= self.n:
-            return self
-        if n <= self.a:
-            return Sent(self.pre[:n], b"", b"")
-        if n < self.b:
-            return Sent(self.pre, self.hole[:n - self.a], b"")
-        return Sent(self.pre, self.hole, self.post[:n - self.b])
 
     def pieces(self, before, after):
         """division into reads: the symbolic bytes with `before`/`after` bytes of context form one piece"""
@@ -266,6 +262,7 @@ def judge(kind, res, sent, boundary):
     fail, cls = judge_status(res)
     if fail:
         return fail
+    cover("answered")
     cover("status-%sxx" % cls)
     if cls != "2":
         return None
@@ -323,13 +320,13 @@ def checked(scenario):
     return q
 
 
-def framed(pieces, sent, framing, ctype, declared=None):
+def framed(pieces, sent, framing, ctype):
     """(stream, environ entries) for the framing"""
     env = {"CONTENT_TYPE": ctype}
     if framing == "chunked":
         env["HTTP_TRANSFER_ENCODING"] = "chunked"
         return stubs_c12.PieceStream(stubs_c12.chunked_pieces(pieces)), env
-    env["CONTENT_LENGTH"] = str(sent.n if declared is None else declared)
+    env["CONTENT_LENGTH"] = str(sent.n)
     return stubs_c12.PieceStream(pieces), env
 
 
@@ -357,14 +354,14 @@ SITES = [
     ("name-none", b'; name="', 0, 10, 0, "the name option removed (missing name)"),
     ("name-1", b'; name="', 0, 10, 1, "the name option replaced by one byte"),
     ("name-key", b"name=", 0, 1, 1, "the first byte of the option key `name`"),
-    ("name-eq", b"name=", 4, 2, 2, "the `=\"` after `name`"),
+    ("name-eq", b"name=", 4, 1, 1, "the `=` after `name`"),
     ("name-val", b'name="', 6, 1, 1, "the field name"),
     ("filename-key", b"filename=", 0, 1, 1, "the first byte of the option key `filename`"),
     ("filename-val", b'filename="', 10, 1, 1, "the file name"),
     ("filename-quoted", b'filename="', 9, 3, 2, "the quoted file name replaced by two bytes"),
     ("ctype-colon", b"Content-Type:", 12, 1, 1, "the colon of the second header line"),
     ("ctype-value", b"Content-Type: ", 13, 4, 1, "the value of the second header line replaced by one byte"),
-    ("line-break", b"\r\nContent-Type", 0, 2, 2, "the CRLF between the two header lines"),
+    ("line-break", b"\r\nContent-Type", 1, 1, 1, "the LF of the CRLF between the two header lines"),
     ("blank", b"\r\n\r\n", 0, 4, 2, "the blank line replaced by two bytes"),
     ("blank-tail", b"\r\n\r\n", 2, 2, 2, "the second CRLF of the blank line"),
     ("data", b"\r\n\r\n", 4, 2, 2, "the two data bytes"),
@@ -601,11 +598,11 @@ HOLES_QUICK_CHUNKED = [("text", "colon", "forms", BOTH, 14), ("text", "after-del
                        ("text", "data", "forms", BOTH, 5), ("text", "delim-bound", "forms", BOTH, 1),
                        ("file", "data", "files", OK2, 3)]
 HOLES_THOROUGH = [
-    ("text", "hname", "forms", BOTH, 400), ("text", "name-key", "forms", BOTH, 400), ("text", "name-eq", "forms", E4, 400),
-    ("text", "name-val", "forms", BOTH, 300), ("text", "colon+1", "forms", BOTH, 400),
-    ("file", "filename-key", "files", ["status-4xx", "status-2xx"], 400), ("ctype", "line-break", "files", BOTH, 400),
-    ("ctype", "filename-quoted", "files", BOTH, 110), ("file", "filename-quoted", "files", BOTH, 70),
-    ("file", "name-val", "files", BOTH, 40), ("text", "preamble", "forms", E4, 35), ("text", "hvalue-2", "forms", E4, 16),
+    ("text", "hname", "forms", BOTH, 470), ("file", "filename-key", "files", ["status-4xx", "status-2xx"], 365),
+    ("text", "colon+1", "forms", BOTH, 230), ("text", "name-key", "forms", BOTH, 190), ("text", "name-eq", "forms", BOTH, 180),
+    ("ctype", "filename-quoted", "files", BOTH, 130), ("file", "filename-quoted", "files", BOTH, 90),
+    ("ctype", "line-break", "files", BOTH, 70), ("text", "preamble", "forms", E4, 46), ("file", "name-val", "files", BOTH, 40),
+    ("text", "name-val", "forms", BOTH, 25), ("text", "hvalue-2", "forms", E4, 16),
 ]
 JSON_QUICK = ["obj-open", "arr", "num", "str", "nul", "member-value", "member-key", "any2", "escape", "nested", "two-values"]
 
@@ -641,8 +638,8 @@ def queries(tier):
     if T:   # other divisions of the window into reads, for the sites that are cheap
         for ctx in ((0, 0), (6, 1), (1, 6)):
             for tag, name, kind, labels, cpu in HOLES_QUICK:
-                if cpu <= 6:
-                    hole(tag, name, kind, "cl", [], cpu * 2, ctx)
+                if cpu <= 6 and name != "delim-dash":   # there the parser's error text realises both bytes: 65536 paths
+                    hole(tag, name, kind, "cl", ["answered"], cpu * 2, ctx)
 
     # ---- multipart: truncation, buffer sizes, declared length, arbitrary short bodies
     trunc = [("text", "forms", "cl"), ("text", "forms", "chunked"), ("file", "files", "chunked-raw"), ("two", "files", "cl")]
@@ -682,7 +679,7 @@ def queries(tier):
         for kind in (["forms"] if not T else ["forms", "files", "body"]):
             add("mp/ctype/%s/%s" % (tag, kind), make_mp_spelling(ctype, kind),
                 "Content-Type %r, body = every prefix of skeleton 'text' (cut symbolic), buffer 60..62, handler reads "
-                "request.%s" % (ctype, kind), 100, ["status-2xx"], "mp/ctype", {"content_type": ctype, "handler": kind})
+                "request.%s" % (ctype, kind), 100, ["answered"], "mp/ctype", {"content_type": ctype, "handler": kind})
 
     # ---- JSON
     for tag in JSON_QUICK + (["any3", "member-value3"] if T else []):
@@ -694,7 +691,8 @@ def queries(tier):
                 add("json/model/%s/%s/%s" % (tag, kind, framing), make_json_hole(tag, kind, framing, True),
                     "application/json body %r + %d symbolic byte(s) in 0x01..0x7f + %r, decoded by the PyJson model; "
                     "handler reads request.%s; %s framing" % (prefix, k, suffix, kind, framing),
-                    100 if k < 3 else 500, ["status-4xx"] + ([] if tag == "two-values" else ["decoded"]), "json/model",
+                    100 if k < 3 else 500, ["status-4xx"] + (["decoded"] if kind == "json" and tag != "two-values" else []),
+                    "json/model",
                     {"prefix": prefix.decode(), "k": k, "suffix": suffix.decode(), "handler": kind, "framing": framing})
     for tag in ("any1", "tail1", "value1", "in-string1"):
         prefix, k, suffix = JSON_HOLES[tag]
@@ -709,7 +707,7 @@ def queries(tier):
             add("json/text/%s/%s" % (tag, kind), make_json_text(text, kind),
                 "application/json body %r (%d bytes) through the real json.loads; buffer in [len, len+2], first short "
                 "read 1..4 and the framing are symbolic; handler reads request.%s" % (shown, len(text), kind),
-                100, [], "json/text", {"text": tag, "length": len(text), "handler": kind})
+                100, ["answered"], "json/text", {"text": tag, "length": len(text), "handler": kind})
 
     # ---- urlencoded and unlabelled text
     forms = [(3, FORM_CTYPE, "cl", 64), (2, FORM_CTYPE, "chunked", 64), (3, "text/plain", "cl", 2)]
